@@ -27,9 +27,10 @@ def expectedProgram : Program := {
   fmReadMeta := [.readFile "service_meta"],
   fmReadEdb := [.readFile "edb"],
   fmCheckDir := [.retAllExist ["config.json", "service_meta"]],
-  mgrCreate := [.construct, .ifRegistered [.sendControl, .awaitPrevClosed], .locked [.register], .spawnCleanup,
+  mgrCreate := [.construct, .enqueue, .locked [.waitTurn, .dequeue, .refresh, .register], .spawnCleanup,
     .serve, .awaitCleanup],
-  mgrCleanup := [.awaitClosed, .locked [.sleep, .closeService, .delEntry]] }
+  mgrCleanup := [.awaitClosed, .locked [.sleep, .closeService, .delEntry, .notifyAll]],
+  mgrLockIsCondition := true }
 
 abbrev P := expectedProgram
 
